@@ -239,9 +239,12 @@ int main(int argc, char **argv) {
         if (nt == 0 || tok[0][0] == '#') continue;
         const char *c = tok[0];
         if (!strcmp(c, "MARK")) {
+            vp_now_ms = 1000;      /* scenario boundary: every scenario starts at the same virtual time */
             fprintf(tr, "{\"e\":\"mark\",\"ln\":%ld,\"name\":\"%s\"}\n", lineno, nt > 1 ? tok[1] : "");
         } else if (!strcmp(c, "NEW")) {
             do_new(nt > 1 ? atoi(tok[1]) : 1);
+        } else if (!strcmp(c, "CLOCK")) {
+            vp_now_ms = strtoull(tok[1], NULL, 0);      /* absolute: a monotonic clock may well start at 0 */
         } else if (!strcmp(c, "ADV")) {
             vp_now_ms += strtoull(tok[1], NULL, 0);
         } else if (!strcmp(c, "CTOR")) {
